@@ -21,6 +21,7 @@ import (
 	"github.com/plgd-dev/go-coap/v3/message"
 	"github.com/plgd-dev/go-coap/v3/message/codes"
 	"github.com/plgd-dev/go-coap/v3/message/pool"
+	"github.com/plgd-dev/go-coap/v3/net/client"
 	"github.com/plgd-dev/go-coap/v3/net/observation"
 	"github.com/plgd-dev/go-coap/v3/net/responsewriter"
 	"verifharness/internal/lp"
@@ -32,11 +33,23 @@ type glueConn struct {
 	handler *observation.Handler[*glueConn]
 	wire    string // option list of the last request handed to the connection by Cancel
 	tokens  int
+	seq     uint32 // Observe sequence number of the last notification
+	cl      *client.Client[*glueConn]
+}
+
+// AsyncPing completes net/client.Conn; never used by the request builders.
+func (g *glueConn) AsyncPing(func()) (func(), error) { return func() {}, nil }
+
+func (g *glueConn) nextToken() (message.Token, error) {
+	g.tokens++
+	return message.Token{0xb1, 0x1d, byte(g.tokens >> 8), byte(g.tokens)}, nil
 }
 
 func newGlue() *glueConn {
 	g := &glueConn{ctx: context.Background(), p: pool.New(64, 2048)}
 	g.handler = observation.NewHandler(g, func(*responsewriter.ResponseWriter[*glueConn], *pool.Message) {}, g.do)
+	g.cl = client.New(g, g.handler, g.nextToken, nil)
+	g.seq = 2
 	return g
 }
 
@@ -91,7 +104,7 @@ func (s *state) glueInit() *glueState {
 // execGlue handles the glue operations; ok=false when f[0] is not one of them.
 func (s *state) execGlue(f []string) (string, bool) {
 	switch f[0] {
-	case "setresp", "observe", "obsopts", "obsreq", "obscancel", "recycle":
+	case "setresp", "observe", "obsopts", "obsreq", "obscancel", "recycle", "notify", "build":
 	default:
 		return "", false
 	}
@@ -160,6 +173,81 @@ func (s *state) execGlue(f []string) (string, bool) {
 			return "ret other 0", true
 		}
 		return "ret ok " + g.conn.wire, true
+	case "notify":
+		// notify <etaghex>: the peer sends the next notification of the observation, with this ETag ("-" = none)
+		if len(f) != 2 || g.obs == nil || g.obs.Canceled() {
+			if len(f) != 2 {
+				return "bad-op", true
+			}
+			return "ret notfound 0", true
+		}
+		etag, err := lp.ParseHex(f[1])
+		if err != nil {
+			return "bad-op", true
+		}
+		g.conn.seq++
+		n := pool.NewMessage(g.conn.ctx)
+		n.SetCode(codes.Content)
+		n.SetToken(g.obs.Request().Token)
+		n.SetObserve(g.conn.seq)
+		if len(etag) > 0 {
+			n.SetOptionBytes(message.ETag, etag)
+		}
+		g.conn.handler.Handle(responsewriter.New(pool.NewMessage(g.conn.ctx), g.conn), n)
+		return fmt.Sprintf("ret ok %d", s.tail()), true
+	case "build":
+		// build <get|post|put|delete|observe> <pathhex> <cf> <body 0|1> <spare> <n> {id:hex}*
+		// the generic client's request builders, driven with a caller-owned option slice `base` (len n, cap n+spare) while a
+		// sibling slice append(base, Accept:32) over the same backing array is still in use.
+		// answer: the built request's options # the sibling slice afterwards # base afterwards
+		if len(f) < 7 {
+			return "bad-op", true
+		}
+		path, e0 := lp.ParseHex(f[2])
+		cf, e1 := strconv.ParseUint(f[3], 10, 16)
+		spare, e2 := strconv.Atoi(f[5])
+		in, ok := parseItems(f[7:])
+		if e0 != nil || e1 != nil || e2 != nil || !ok || spare < 0 {
+			return "bad-op", true
+		}
+		base := make([]message.Option, len(in), len(in)+spare)
+		copy(base, in)
+		sibling := append(base, message.Option{ID: message.Accept, Value: []byte{0x32}})
+		var body *bytes.Reader
+		var req *pool.Message
+		var err error
+		ctx := g.conn.ctx
+		if f[4] == "1" {
+			body = bytes.NewReader([]byte("payload"))
+		}
+		switch f[1] {
+		case "get":
+			req, err = g.conn.cl.NewGetRequest(ctx, string(path), base...)
+		case "delete":
+			req, err = g.conn.cl.NewDeleteRequest(ctx, string(path), base...)
+		case "observe":
+			req, err = g.conn.cl.NewObserveRequest(ctx, string(path), base...)
+		case "post":
+			if body != nil {
+				req, err = g.conn.cl.NewPostRequest(ctx, string(path), message.MediaType(cf), body, base...)
+			} else {
+				req, err = g.conn.cl.NewPostRequest(ctx, string(path), message.MediaType(cf), nil, base...)
+			}
+		case "put":
+			if body != nil {
+				req, err = g.conn.cl.NewPutRequest(ctx, string(path), message.MediaType(cf), body, base...)
+			} else {
+				req, err = g.conn.cl.NewPutRequest(ctx, string(path), message.MediaType(cf), nil, base...)
+			}
+		default:
+			return "bad-op", true
+		}
+		if err != nil {
+			return fmt.Sprintf("ret %s 0 # %s # %s", errKind(err), fmtOptions(sibling), fmtOptions(base)), true
+		}
+		out := fmt.Sprintf("ret ok %s # %s # %s", fmtOptions(req.Options()), fmtOptions(sibling), fmtOptions(base))
+		g.conn.ReleaseMessage(req)
+		return out, true
 	case "recycle":
 		// the message goes back to the pool (Reset) and a message is taken from the pool again
 		delete(g.w, c.msg)
